@@ -35,25 +35,29 @@ type TierSpec struct {
 }
 
 type HarnessSpec struct {
-	ID         string              `json:"id"`
-	Property   string              `json:"property"`
-	Pkg        string              `json:"pkg"` // directory relative to the repo root
-	Func       string              `json:"func"`
-	Merge      *bool               `json:"merge,omitempty"`
-	Policy     map[string]string   `json:"policy,omitempty"`
-	Tiers      map[string]TierSpec `json:"tiers"`
-	Known      []string            `json:"known,omitempty"`
-	Covers     []string            `json:"covers,omitempty"` // cover labels that must be witnessed
-	Stubs      []string            `json:"stubs,omitempty"`  // assumptions / stubs in force (text)
-	Hooks      []string            `json:"hooks,omitempty"`  // functions rewritten by the hook injector
-	Oracle     string              `json:"oracle,omitempty"`
-	Gen        []GenSpec           `json:"gen,omitempty"`         // generated overlay files (native helper tools)
-	OnlyLabels string              `json:"only_labels,omitempty"` // regexp: violation labels that belong to this property
+	ID               string              `json:"id"`
+	Property         string              `json:"property"`
+	Pkg              string              `json:"pkg"` // directory relative to the repo root
+	Func             string              `json:"func"`
+	Merge            *bool               `json:"merge,omitempty"`
+	Policy           map[string]string   `json:"policy,omitempty"`
+	Tiers            map[string]TierSpec `json:"tiers"`
+	Known            []string            `json:"known,omitempty"`
+	Covers           []string            `json:"covers,omitempty"` // cover labels that must be witnessed
+	Stubs            []string            `json:"stubs,omitempty"`  // assumptions / stubs in force (text)
+	Hooks            []string            `json:"hooks,omitempty"`  // functions rewritten by the hook injector
+	Oracle           string              `json:"oracle,omitempty"`
+	Gen              []GenSpec           `json:"gen,omitempty"`         // generated overlay files (native helper tools)
+	OnlyLabels       string              `json:"only_labels,omitempty"` // regexp: violation labels that belong to this property
+	PtrChoice        bool                `json:"ptr_choice,omitempty"`
+	Summarise        []string            `json:"summarise,omitempty"`
+	MergeMaxOutcomes int                 `json:"merge_max_outcomes,omitempty"`
 }
 
 type GenSpec struct {
-	Tool string `json:"tool"` // binary under /verif/bin
-	File string `json:"file"` // file name inside the harness package
+	Tool  string `json:"tool,omitempty"`  // binary under /verif/bin
+	GoRun string `json:"gorun,omitempty"` // or: directory under /verif/tools started with `go run .` (links against the current /repo)
+	File  string `json:"file"`            // file name inside the harness package
 }
 
 type Index struct {
@@ -261,9 +265,9 @@ func cmdCheck(args []string) {
 				continue
 			}
 			genDone[key] = true
-			out, err := exec.Command(filepath.Join(verifRoot, "bin", g.Tool)).Output()
+			out, err := runGen(g)
 			if err != nil {
-				fail("generator " + g.Tool + ": " + err.Error())
+				fail("generator " + g.Tool + g.GoRun + ": " + err.Error())
 			}
 			overlay[filepath.Join(repoRoot, h.Pkg, "zz_"+g.File)] = out
 		}
@@ -359,6 +363,15 @@ func cmdCheck(args []string) {
 				}
 				cfg.Deadline = time.Now().Add(time.Duration(budget) * time.Second)
 				cfg.Stop = &stopFlag
+				cfg.PtrChoice = h.PtrChoice
+				cfg.LazyFeas = false
+				if h.MergeMaxOutcomes > 0 {
+					cfg.MergeMaxOutcomes = h.MergeMaxOutcomes
+				}
+				cfg.Summarise = map[string]bool{}
+				for _, f := range h.Summarise {
+					cfg.Summarise[f] = true
+				}
 				if h.OnlyLabels != "" {
 					cfg.OnlyLabel = regexp.MustCompile(h.OnlyLabels)
 				}
@@ -827,4 +840,14 @@ func cmdReplay(path string) int {
 		return 1
 	}
 	return 0
+}
+
+func runGen(g GenSpec) ([]byte, error) {
+	if g.GoRun != "" {
+		cmd := exec.Command("go", "run", ".")
+		cmd.Dir = filepath.Join(verifRoot, "tools", g.GoRun)
+		cmd.Env = append(os.Environ(), "GOFLAGS=-mod=mod", "GOPROXY=off", "GOSUMDB=off", "GOTOOLCHAIN=local")
+		return cmd.Output()
+	}
+	return exec.Command(filepath.Join(verifRoot, "bin", g.Tool)).Output()
 }
